@@ -32,6 +32,9 @@ structure Cfg where
   workers : Nat
   depth : Int
   inCap : Nat
+  /-- a recovery handler is installed (`RecoveryHandler(h)` with `h != nil`); without one (`New` without the option, or
+      `RecoveryHandler(nil)`) `errs.Recovery(nil)` swallows the panic silently -/
+  handler : Bool := true
 
 structure S where
   nextId : Nat := 0
@@ -75,7 +78,7 @@ inductive Label where
   | submit (p : Bool)   -- a send into `in` completes; p = the task panics
   | shutdown            -- `close(q.in)`
   | take                -- an idle worker receives from `tasks`
-  | finish (t : Nat)    -- task t returns (or panics: the recovery handler is called) inside `runTask`
+  | finish (t : Nat)    -- task t returns or panics inside `runTask` (`errs.Recovery` swallows the panic and calls the handler, if any)
   | report              -- a worker's `ready <- true` completes
   | recv | closed | selReadyEmpty | selReadyBacklog | handoff | toBacklog | toWait | waitReady
   | sendDirect | sendBacklog | sendBacklog2 | drainSend | drainReady | drainDone | finalReady | finalClose
@@ -87,9 +90,9 @@ abbrev doSubmit (s : S) (p : Bool) : S :=
   { s with inq := s.inq ++ [s.nextId], nextId := s.nextId + 1, pan := if p then s.nextId :: s.pan else s.pan }
 abbrev doTake (s : S) (t : Nat) (rest : List Nat) : S :=
   { s with tq := rest, running := t :: s.running, started := s.started ++ [t] }
-abbrev doFinish (s : S) (t : Nat) : S :=
+abbrev doFinish (handler : Bool) (s : S) (t : Nat) : S :=
   { s with running := s.running.erase t, reporting := s.reporting + 1, finished := t :: s.finished,
-           recovered := if t ∈ s.pan then t :: s.recovered else s.recovered }
+           recovered := if handler = true ∧ t ∈ s.pan then t :: s.recovered else s.recovered }
 abbrev doReport (s : S) : S := { s with reporting := s.reporting - 1, ready := s.ready + 1 }
 abbrev doReady (s : S) (pc : PC) : S := { s with ready := s.ready - 1, processed := s.processed + 1, pc := pc }
 
@@ -101,7 +104,7 @@ def next (c : Cfg) (s : S) : Label → Option S
     match s.tq with
     | t :: rest => if s.running.length + s.reporting < c.workers then some (doTake s t rest) else none
     | [] => none
-  | .finish t => if t ∈ s.running then some (doFinish s t) else none
+  | .finish t => if t ∈ s.running then some (doFinish c.handler s t) else none
   | .report => if 0 < s.reporting ∧ s.ready < c.workers then some (doReport s) else none
   | .recv =>
     match s.inq with
@@ -172,7 +175,7 @@ inductive Step (c : Cfg) : S → S → Prop
   | shutdown (s : S) (h : s.shut = 0) : Step c s { s with shut := 1 }
   | take (s : S) (t : Nat) (rest : List Nat) (h1 : s.tq = t :: rest) (h2 : s.running.length + s.reporting < c.workers) :
       Step c s (doTake s t rest)
-  | finish (s : S) (t : Nat) (h : t ∈ s.running) : Step c s (doFinish s t)
+  | finish (s : S) (t : Nat) (h : t ∈ s.running) : Step c s (doFinish c.handler s t)
   | report (s : S) (h1 : 0 < s.reporting) (h2 : s.ready < c.workers) : Step c s (doReport s)
   -- dispatcher
   | recv (s : S) (t : Nat) (rest : List Nat) (h1 : s.pc = .sel) (h2 : s.inq = t :: rest) :
@@ -410,5 +413,20 @@ theorem reachable_runLabels (c : Cfg) (ls : List Label) (s s' : S) (hs : Reachab
     split at h
     · next s1 h1 => exact ih s1 (Reachable.step s s1 hs (next_sound c s s1 l h1)) h
     · cases h
+
+/-- the state without the record of handler calls -/
+def eraseRecovered (s : S) : S := { s with recovered := [] }
+
+/-- whether a recovery handler is installed affects nothing but the record of handler calls: the executable model with
+    and without handler takes the same steps to the same states, up to `recovered` -/
+theorem handler_only_affects_recovered (c : Cfg) (b : Bool) (s : S) (l : Label) :
+    (next { c with handler := b } s l).map eraseRecovered = (next c s l).map eraseRecovered := by
+  cases l
+  case finish t =>
+    simp only [next]
+    split
+    · simp [eraseRecovered]
+    · rfl
+  all_goals rfl
 
 end TQ
